@@ -139,10 +139,45 @@ def exchange_text(rng, n, soln, db):
     return "\n".join(lines) + "\n", [tag]
 
 
+CD_MUSIC_SPECIES = """SURFACE_MASTER_SPECIES
+ Goe_uni Goe_uniOH-0.5
+SURFACE_SPECIES
+ Goe_uniOH-0.5 = Goe_uniOH-0.5
+ log_k 0
+ -cd_music 0 0 0 0 0
+ Goe_uniOH-0.5 + H+ = Goe_uniOH2+0.5
+ log_k 9.2
+ -cd_music 1 0 0 0 0
+ Goe_uniOH-0.5 + Na+ = Goe_uniOHNa+0.5
+ log_k -1
+ -cd_music 0 1 0 0 0
+ Goe_uniOH-0.5 + K+ = Goe_uniOHK+0.5
+ log_k -1
+ -cd_music 0 1 0 0 0
+ Goe_uniOH-0.5 + Ca+2 = Goe_uniOHCa+1.5
+ log_k 0.1
+ -cd_music 0.2 1.8 0 0 0
+ Goe_uniOH-0.5 + H+ + Cl- = Goe_uniOH2Cl-0.5
+ log_k 8.2
+ -cd_music 1 -1 0 0 0
+"""
+
+
 def surface_text(rng, n, soln, db):
-    variant = rng.choice(["ddl", "ddl", "no_edl", "diffuse_layer", "donnan", "cd_music", "ccm", "explicit"])
+    variant = rng.choice(["ddl", "ddl", "no_edl", "diffuse_layer", "donnan", "cd_music", "cd_music", "ccm", "explicit"])
     lines = ["SURFACE %d" % n]
     area, grams = rng.choice([600, 100, 50]), rng.choice([1, 0.5, 5])
+    if variant == "cd_music":
+        # species with proper CD-MUSIC charge distributions (the Hfo species of the databases have none: known finding)
+        lines.append(" Goe_uniOH-0.5 %s %d %s" % (fmt(rng.uniform(1e-4, 5e-3)), area, fmt(grams)))
+        lines.append(" -equilibrate %d" % soln)
+        lines.append(" -cd_music")
+        lines.append(" -capacitances %s %s" % (fmt(rng.choice([1.0, 0.9, 1.2])), fmt(rng.choice([5, 0.74, 2]))))
+        tag = "surf:cd_music"
+        if rng.random() < 0.3:
+            lines.append(" -donnan %s" % fmt(rng.choice([1e-8, 1e-9])))
+            tag = "surf:cd_music+donnan"
+        return CD_MUSIC_SPECIES + "\n".join(lines) + "\n", [tag]
     if variant == "explicit":
         lines.append(" Hfo_wOH %s %d %s" % (fmt(rng.uniform(1e-4, 5e-3)), area, fmt(grams)))
         if rng.random() < 0.5:
@@ -235,7 +270,7 @@ def kinetics_text(rng, n, db):
         ns = rng.randint(1, 5)
         lines.append(" -steps " + " ".join(fmt(v) for v in sorted(rng.uniform(10, 5000) for _ in range(ns))))
         tags.append("kin:list")
-    if rng.random() < 0.25:
+    if rng.random() < 0.15:
         lines.append(" -cvode true")
         tags.append("kin:cvode")
     elif rng.random() < 0.3:
@@ -317,7 +352,7 @@ def history(rng, forced=None):
         t, tg = surface_text(rng, 1, 1, db)
         t0.append(t)
         tags += tg
-        surfaces = ["Hfo"]
+        surfaces = ["Goe" if "Goe_uni" in t else "Hfo"]
     if "gas_phase" in kinds:
         t, tg = gas_text(rng, 1, 1, db)
         t0.append(t)
@@ -459,3 +494,14 @@ def formula_text(rng, depth=0):
             pos = rng.randint(0, len(out))
             out = out[:pos] + rng.choice(["(", ")", "..", "[", "]", "a", "_", ":", "e-", "?", " ", "*"]) + out[pos:]
     return out
+
+
+def known_cd_music_history():
+    """deterministic reproduction of the known finding cd_music-species-without-charge-distribution"""
+    s0 = ("SOLUTION 1\n pH 6\n Na 10\n Cl 10\nSURFACE 1\n Hfo_w 0.003 100 1\n -equilibrate 1\n -cd_music\n"
+          "USE solution none\nDUMP\n -all\nEND\n")
+    s1 = "USE solution 1\nUSE surface 1\nSAVE solution 2\nSAVE surface 2\nDUMP\n -all\nEND\n"
+    return {"db": "phreeqc.dat", "incremental": False, "sims": [s0, s1],
+            "plan": [{"mode": "use", "sol": ("solution", 1), "use": {"surface": 1}, "save": {"solution": 2, "surface": 2},
+                      "reaction": None}],
+            "extra_phases": {}, "elements": ["Na", "Cl", "H", "O"], "heads": [], "punch": {}, "tags": ["known:cd_music-hfo"]}
